@@ -28,7 +28,7 @@ def runTag (j : Json) : Except String Json := do
     | .error e => return obj [("out", Json.null), ("err", Json.str e.name), ("parsed", Json.null)]
     | .ok (s, _) =>
       -- the generator sets "parse" on data-only cases (no Markup value, no contents)
-      let parsed := if (← bfld j "parse") then ofParsed (parseTag decodeRefs voidElements s) else Json.null
+      let parsed := if (← bfld j "parse") then ofParsed (parseTag decodeRefs htmlVoidElements s) else Json.null
       return obj [("out", ofStr s), ("err", Json.null), ("parsed", parsed)]
 
 def runSugar (j : Json) : Except String Json := do
